@@ -63,8 +63,15 @@ def sample(
                 if ((step_index + 1) % thin) == 0:
                     results.add_theta(model.get_model_state())
         case VIModel():
+            if n_chains is None:
+                raise ValueError("n_chains must be set when model is VIModel")
+            if chain_index is None:
+                raise ValueError("chain_index must be set when model is VIModel")
+
+            seeds = numpy.random.SeedSequence(seed).spawn(n_chains)
+            rng = numpy.random.default_rng(seeds[chain_index])
+
             model.reset_model()
-            rng = numpy.random.default_rng(seed)
             model.set_rng(rng)
             samples = model.sample(num_samples=results.n_thetas)
             for theta in samples:
